@@ -19,9 +19,16 @@ SAME12 = '0x16bful'     # 2 states, {a/0,a/1,a/2}: all nullary and unary rules, 
 BIN6 = '0x16bul'        # 2 states, {a/0,g/2}: a->q0, a->q1, g(q0,q1)->q0, g(q1,q1)->q0, g(q0,q0)->q1, g(q1,q0)->q1
 BIN3_11 = '0x2889917ul' # 3 states, {a/0,g/2}: the 3 nullary rules and 8 binary rules, every state parent and child
 
+# 3 states, {a/0,f/1,g/2}: a->q0, f(q0)->q1, f(q1)->q2, g(q0,q1)->q2, g(q0,q2)->q2, g(q1,q0)->q2, g(q2,q0)->q2: the product states of
+# the two child positions of a binary rule are discovered at different times (work-list order matters)
+CHAIN3 = '0x1380000441ul'
+
 def c08_ops(tier):
     out = []
     for enc in (0, 1):
+        out.append(ops(1, 3, [0, 1, 2], ENC=enc, OP=3, BFREE=CHAIN3))                          # 14 bits: one operand repeats a child state
+        if tier == 'thorough' or enc == 0:
+            out.append(ops(3, 1, [0, 1, 2], ENC=enc, OP=3, AFREE=CHAIN3))                      # 14 bits
         unary = [0, 4, 5] + ([6] if enc == 0 else [])
         for op in unary:
             out.append(ops(2, 0, [0, 1], ENC=enc, OP=op))                                      # 8 bits
@@ -78,7 +85,7 @@ CHECKS = {
  'C08': {
   'level': 'model_checking',
   'explanation': 'Load (LoadFromString through a parser object that hands over the AutDescription), Union, UnionDisjointStates, Intersection, RemoveUnreachableStates, RemoveUselessStates and GetTopDownAut of BDDBottomUpTreeAut / BDDTopDownTreeAut executed symbolically (MTBDD package, on-the-fly alphabet and state dictionaries included) on every automaton / pair / triple drawn from the rule universe of the configuration (presence bit per rule, finality bit per state). The result and every operand (and earlier result) after each call are dumped with DumpToString (serializer object that receives the AutDescription), decoded by state and symbol name into rule masks and compared by *language* with the expected automaton (the operand itself, mask-level disjoint union, mask-level product) using an independent macro-state inclusion oracle in both directions; after RemoveUselessStates every state the dump mentions must occur in an accepting run of the dumped automaton. harness bddops: one operation on fresh operands or on operands that are copies sharing one transition table; harness bddseq: two-call sequences starting with UnionDisjointStates (whose result used to alias its left operand\'s table), every automaton built so far is re-checked after each call.',
-  'bounds': {'quick': 'operands over <= 2 states: universes 2 x {a/0,f/1}, 2 x {a/0,b/0,f/1}, 2 x {a/0,g/2}, 2 x {a/0,a/1,a/2} (one name, three ranks; 6-rule sub-universe), pairs 2+1, 1+2 over {a/0,f/1}, 1+1 over {a/0,b/0,f/1,g/2}, table-sharing pairs over {a/0,f/1} and a 6-rule sub-universe of {a/0,g/2}; triples 1+1+1 over {a/0,f/1} and {a/0,b/0,f/1}; state numbers and symbol codes either fixed in advance or handed out by the loader; all rule subsets and final sets (8..12 free bits per query)',
+  'bounds': {'quick': 'operands over <= 2 states: universes 2 x {a/0,f/1}, 2 x {a/0,b/0,f/1}, 2 x {a/0,g/2}, 2 x {a/0,a/1,a/2} (one name, three ranks; 6-rule sub-universe), pairs 2+1, 1+2 over {a/0,f/1}, 1+1 over {a/0,b/0,f/1,g/2}, table-sharing pairs over {a/0,f/1} and a 6-rule sub-universe of {a/0,g/2}, intersection of a 1-state operand over {a/0,f/1,g/2} with a 3-state operand restricted to a 7-rule chain-shaped sub-universe (either order); triples 1+1+1 over {a/0,f/1} and {a/0,b/0,f/1}; state numbers and symbol codes either fixed in advance or handed out by the loader; all rule subsets and final sets (8..12 free bits per query)',
              'thorough': 'as quick plus 3 x {a/0,f/1}, an 11-rule sub-universe of 3 x {a/0,g/2}, 2 x {a/0,a/1,a/2} with 10 free rules, pairs 2+2 over {a/0,f/1}, 2+1 over {a/0,g/2}, table-sharing pairs over all of 2 x {a/0,g/2}, triples 2+1+1 (up to 16 free bits per query)'},
   'outside': 'more than 3 states per operand, rank > 2, more than 4 symbols; sequences longer than two calls; the Timbuk text parser/serializer (the harness hands AutDescription objects over directly); loading into an automaton whose table is already shared (AddTransition asserts uniqueness); the "symbolic" load/dump parameter; state dictionaries other than the seeded / on-the-fly ones',
   'harnesses': [
